@@ -5,8 +5,11 @@
    performs on the caller's stream are NOT written here: they are the definitions of Gen/GenOwnership.v, regenerated from
    the source (tools/py2v_c18.py), and this model interprets them.  The cursor arithmetic is Gen/GenCursor.v.
 
-   Modelled: closed/open state of the stream, its position during read sessions, the lazily created point source, the
-   exception class (LaspyException or another Exception) with which opening fails and which except clause sees it.
+   Modelled: closed/open state of the stream, its position during read sessions (the stream may stand anywhere when it
+   is handed to laspy: the LAS content starts where the stream stands), the lazily created point source, the exception
+   class (LaspyException or another Exception) with which opening fails and which except clause sees it, and the
+   failures that come AFTER a successful open: a point area that ends inside a record (read_points / read raise), EVLRs
+   that cannot be decoded (open raises when they are loaded at opening, read() raises when they were left for it).
    Not modelled: positions during write/append sessions (left unchanged), LAZ point sources, failures of the stream's own
    methods, double close. *)
 From Coq Require Import ZArith List Bool.
@@ -19,8 +22,10 @@ Open Scope bool_scope.
 Inductive outcome := OOk | OEmpty | OBadSig | OTruncated | OBadVlr | OIncompat.
 
 (* the facts about a well-formed file that positions depend on *)
+(* f_size is the size of the whole stream (what precedes the LAS content included), f_evlr_start the absolute position
+   LasHeader.read_evlrs seeks to, f_evlr_bad says that the EVLRs found there cannot be decoded (non-ASCII user id) *)
 Record finfo := mkF { f_offset : Z; f_count : Z; f_psize : Z; f_minor : Z; f_nevlrs : Z;
-                      f_evlr_start : Z; f_evlr_bytes : Z; f_size : Z }.
+                      f_evlr_start : Z; f_evlr_bytes : Z; f_size : Z; f_evlr_bad : bool }.
 
 Record stream := mkS { s_closed : bool; s_pos : Z; s_seekable : bool }.
 
@@ -47,7 +52,7 @@ Inductive event :=
 | EExit | EClose
 | ELasDataWrite (o : outcome)                                              (* LasData.write(stream) *)
 | EReadLas (closefd : bool) (f : finfo) (o : outcome)                      (* laspy.read(stream, closefd=) *)
-| ERewind.                                                                 (* the caller's own stream.seek(0) *)
+| ERewind (p : Z).                                                         (* the caller's own stream.seek(p) *)
 
 (* the exception constructing the reader / writer / appender raises, by class *)
 Definition fail_exn (m : omode) (o : outcome) : option exn :=
@@ -124,9 +129,18 @@ Definition header_read_pos (f : finfo) (read_evlrs seekable : bool) (pos : Z) : 
 Definition pending_evlrs (f : finfo) (read_evlrs seekable : bool) : bool :=
   (4 <=? f_minor f) && (0 <? f_nevlrs f) && (negb read_evlrs || negb seekable).
 
+(* the exception of the constructor, the content being what it is: a reader that loads the EVLRs while opening
+   (asked to, and the stream can seek to them) fails on EVLRs that cannot be decoded (UnicodeDecodeError) *)
+Definition is_r (m : omode) : bool := match m with MR => true | _ => false end.
+Definition open_exn (m : omode) (o : outcome) (f : finfo) (read_evlrs seekable : bool) : option exn :=
+  match fail_exn m o with
+  | Some x => Some x
+  | None => if is_r m && gen_read_from_prefetch_then_evlrs && read_evlrs && evlr_guard f seekable && f_evlr_bad f
+            then Some XOther else None
+  end.
+
 (* ---------------- opening ---------------- *)
 Definition is_a (m : omode) : bool := match m with MA => true | _ => false end.
-Definition is_r (m : omode) : bool := match m with MR => true | _ => false end.
 
 Definition add_obs (t : st) (s' : stream) (hw : how) (declared : bool) : list obs :=
   st_log t ++ [mkO hw declared (negb (s_closed (st_s t))) (s_closed s')].
@@ -142,7 +156,7 @@ Definition do_open (declared : bool) (m : omode) (closefd read_evlrs : bool) (f 
     else
       let failure := if s_closed s then Some XOther
                      else if is_a m && negb (s_seekable s) then Some gen_appender_nonseekable_exn
-                     else fail_exn m o in
+                     else open_exn m o f read_evlrs (s_seekable s) in
       match failure with
       | Some x => let s' := handle_exn (gen_open_handlers m closefd) x s in
                   (mkSt s' None (add_obs t s' HFailedOpen declared), RRaised x)
@@ -169,13 +183,22 @@ Definition set_read (h : handle) (r : Z) : handle :=
 Definition clear_pending (h : handle) : handle :=
   mkH (h_mode h) (h_closefd h) (h_declared h) (h_ps h) (h_file h) (h_read h) false.
 
-Definition do_read_points (n : Z) (h : handle) (s : stream) : handle * stream :=
+(* the bytes the point reader got are not a whole number of records: np.frombuffer raises ValueError *)
+Definition torn (psize got : Z) : bool := (0 <? psize) && negb (got mod psize =? 0).
+
+Definition do_read_points (n : Z) (h : handle) (s : stream) : handle * stream * res :=
   let f := h_file h in
   let '(pr, k) := gen_read_points (f_count f) (h_read h) n in
-  if k <? 0 then (set_read h pr, s)                                   (* nothing left: the point source is not touched *)
+  if k <? 0 then (set_read h pr, s, RDone)                            (* nothing left: the point source is not touched *)
   else let p := ensure_ps h in
-       let s' := match p with PReal _ => set_pos s (rd (f_size f) (s_pos s) (k * f_psize f)) | _ => s end in
-       (set_ps (set_read h pr) p, s').
+       match p with
+       | PReal _ =>
+           let p' := rd (f_size f) (s_pos s) (k * f_psize f) in
+           if torn (f_psize f) (p' - s_pos s)
+           then (set_ps h p, set_pos s p', RRaised XOther)              (* points_read is not advanced *)
+           else (set_ps (set_read h pr) p, set_pos s p', RDone)
+       | _ => (set_ps (set_read h pr) p, s, RDone)
+       end.
 
 Definition do_seek (pos whence : Z) (h : handle) (s : stream) : handle * stream * res :=
   let f := h_file h in
@@ -191,16 +214,21 @@ Definition do_seek (pos whence : Z) (h : handle) (s : stream) : handle * stream 
   end.
 
 Definition do_read_all (h : handle) (s : stream) : handle * stream * res :=
-  let '(h1, s1) := do_read_points (-1) h s in
-  if h_pending_evlrs h1 then
-    let p := ensure_ps h1 in                       (* `self.point_source.source.seekable()` creates the point source *)
-    let h2 := set_ps h1 p in
-    if ps_src_some p then
-      let f := h_file h in
-      if s_seekable s1 then (clear_pending h2, set_pos s1 (run_sops f gen_read_evlrs_ops (s_pos s1)), RDone)
-      else (clear_pending h2, set_pos s1 (rd (f_size f) (s_pos s1) (f_evlr_bytes f)), RDone)
-    else (h2, s1, RRaised XOther)                  (* None.seekable() *)
-  else (h1, s1, RDone).
+  let '(h1, s1, r1) := do_read_points (-1) h s in
+  match r1 with
+  | RDone =>
+    if h_pending_evlrs h1 then
+      let p := ensure_ps h1 in                       (* `self.point_source.source.seekable()` creates the point source *)
+      let h2 := set_ps h1 p in
+      if ps_src_some p then
+        let f := h_file h in
+        if f_evlr_bad f then (h2, s1, RRaised XOther)        (* the decode error leaves the stream inside the EVLRs: position not modelled *)
+        else if s_seekable s1 then (clear_pending h2, set_pos s1 (run_sops f gen_read_evlrs_ops (s_pos s1)), RDone)
+        else (clear_pending h2, set_pos s1 (rd (f_size f) (s_pos s1) (f_evlr_bytes f)), RDone)
+      else (h2, s1, RRaised XOther)                  (* None.seekable() *)
+    else (h1, s1, RDone)
+  | _ => (h1, s1, r1)
+  end.
 
 (* ---------------- letting go ---------------- *)
 Definition end_handle (hw : how) (via_exit : bool) (t : st) (h : handle) : st :=
@@ -208,7 +236,7 @@ Definition end_handle (hw : how) (via_exit : bool) (t : st) (h : handle) : st :=
   let s' := if via_exit && negb (gen_exit_closes (h_mode h)) then s else close_handle h s in
   mkSt s' None (add_obs t s' hw (h_declared h)).
 
-Definition f_none : finfo := mkF 0 0 0 0 0 0 0 0.
+Definition f_none : finfo := mkF 0 0 0 0 0 0 0 0 false.
 
 Definition do_lasdata_write (o : outcome) (t : st) : st * res :=
   let s := st_s t in
@@ -235,7 +263,7 @@ Definition on_handle (t : st) (k : handle -> st * res) : st * res :=
 Definition step (t : st) (e : event) : st * res :=
   match e with
   | EOpen m cf re f o => do_open cf m cf re f o t
-  | EReadPoints n => on_reader t (fun h => let '(h', s') := do_read_points n h (st_s t) in (upd t h' s', RDone))
+  | EReadPoints n => on_reader t (fun h => let '(h', s', r) := do_read_points n h (st_s t) in (upd t h' s', r))
   | ESeek pos whence => on_reader t (fun h => let '(h', s', r) := do_seek pos whence h (st_s t) in (upd t h' s', r))
   | EReadAll => on_reader t (fun h => let '(h', s', r) := do_read_all h (st_s t) in (upd t h' s', r))
   | EPointSource => on_reader t (fun h => (upd t (set_ps h (ensure_ps h)) (st_s t), RDone))
@@ -255,9 +283,9 @@ Definition step (t : st) (e : event) : st * res :=
                       (end_handle (match r with RDone => HExit | _ => HBodyRaised end) true (upd t1 h' s') h', r)
           end
       end
-  | ERewind =>
+  | ERewind p =>
       let s := st_s t in
-      if s_closed s || negb (s_seekable s) then (t, RRaised XOther) else (mkSt (set_pos s 0) (st_h t) (st_log t), RDone)
+      if s_closed s || negb (s_seekable s) then (t, RRaised XOther) else (mkSt (set_pos s p) (st_h t) (st_log t), RDone)
   end.
 
 Definition run (t : st) (evs : list event) : st := fold_left (fun a e => fst (step a e)) evs t.
@@ -268,8 +296,9 @@ Fixpoint trace (t : st) (evs : list event) : list (res * st) :=
   | e :: r => let '(t', x) := step t e in (x, t') :: trace t' r
   end.
 
-(* a stream the caller has just created or opened *)
-Definition init (seekable : bool) : st := mkSt (mkS false 0 seekable) None [].
+(* a stream the caller has just created or opened, standing at position p (whatever comes before is not laspy's) *)
+Definition init_at (seekable : bool) (p : Z) : st := mkSt (mkS false p seekable) None [].
+Definition init (seekable : bool) : st := init_at seekable 0.
 
 (* ---------------- the property's reading of the log ---------------- *)
 (* the stream was open when laspy got it, laspy has let go of it: it is closed iff the caller said closefd.
